@@ -16,7 +16,8 @@ REQUIRED = ["DaeVerif.C07.Props." + n for n in (
     "reject_beats_stale_cache",
     "reask_bounded_optimistic",
     "controller_steps_as_modelled",
-    "multi_question_query_is_refused",
+    "query_without_exactly_one_question_is_refused",
+    "query_without_exactly_one_question_is_refused_optimistic",
     "single_question_query_is_handled",
     "request_match_is_first_match",
     "first_match_is_first",
@@ -253,7 +254,7 @@ def run(ctx):
                  "ask.tcp-fallback-used": 50, "answer.additional-section-filled": 500, "answer.ttl-0": 100,
                  "answer.a-record-without-address": 100, "upstream.does-not-resolve": 5, "cfg.many-upstreams": 1,
                  "ask.repeats-earlier-question": 300, "upstream.shares-address.differs-in-hostname": 30,
-                 "ask.upstream-queries.3": 100, "ask.reply.answers": 300, "ask.two-questions": 40,
+                 "ask.upstream-queries.3": 100, "ask.reply.answers": 300, "ask.two-questions": 40, "ask.no-question": 40,
                  "cfg.ip-version-prefer": 5, "ask.qtype-from-key-table": 100, "op.pref": 8},
         "c07d": {"op.dq": 500, "dq.decision.upstream": 200, "dq.decision.passthrough": 200},
         "c07u": {"op.ga": 600, "op.gr": 500, "gr.at-build.fail": 50, "gr.at-cb.fail": 40, "cfg.leading-upstream-condition": 100,
